@@ -5,6 +5,7 @@
    configurations, events and datamodel states are the invariants below. *)
 From V Require Import Base NameMatch Chart Exec Large LargeLemmas Interp LargeCache LargeCacheLemmas Spec ExitSetLemmas.
 From V Require Import Legal WfCore SelectConform SelectConformLemmas SelectConformOrder SelectConformRoot SelectConformFlatten.
+From V Require Import MicroConform MicroConformLemmas MicroConformEntry MicroConformCompose MicroConformFlatten MicroConformWitness.
 
 (* the transition set selected in one microstep is conflict-free: no two selected transitions have
    overlapping exit sets (Appendix D: removeConflictingTransitions) *)
@@ -183,3 +184,137 @@ Theorem selection_childless_parallel_refuted :
     select_loop lg_fixed c cfg ev (cfg_postfix c cfg) None [] x <> Spec.select_transitions c cfg h ev x.
 Proof. exact SelectConformFlatten.selection_childless_parallel_refuted. Qed.
 Print Assumptions selection_childless_parallel_refuted.
+
+
+(* ---- one microstep is the microstep Appendix D prescribes (history-free core) ----
+   Corresponding states (MicroConform.corr): the engine's configuration is Appendix D's plus the <scxml>
+   element (index 0); "top-level final reached" = not running; the same states count as data-initialised.
+   For every document of the history-free core (wf_coreb) in which every <parallel> has a child
+   (par_nonemptyb), no target of a transition is a proper ancestor of another target of the same transition
+   (targets_antichainb), no <final> is the child of a <parallel> or has a <parallel> above its grand-parent
+   (done_okb), and no executable content asks In(<sid of the root>) (root_silentb); for every legal
+   configuration, every execution state and every list sel of transitions with active sources that are
+   pairwise conflict-free and are not transitions of pseudo-states (what SELECT_TRANSITIONS returns):
+   Large.microstep (exit set, history, entry set, exit, transition content, entry -- called as
+   Large.select_and_step calls it, after TMsB) and Spec.spec_microstep from corresponding states end in
+   corresponding states, with the same datamodel store, queues and trace; Appendix D's trace has the one
+   extra token TCfg at the end (the projection is: drop that last token); the history value is untouched. *)
+Theorem microstep_conforms : forall late t0 sel l s x,
+  let c := flatten late t0 in
+  wf_coreb c = true -> par_nonemptyb c = true -> targets_antichainb c = true -> done_okb c = true -> root_silentb c = true ->
+  legal_configb c (l_cfg l) = true -> corr c l s ->
+  (forall ti, In ti sel -> In (ft_source (tr c ti)) (l_cfg l)) ->
+  pairwise_ok lg_fixed c sel ->
+  (forall ti, In ti sel -> ft_history (tr c ti) || ft_initial (tr c ti) = false) ->
+  let r := microstep lg_fixed ex_fixed c l (emit TMsB x) (sel_targets c sel) (sel_exitset c (l_cfg l) sel) sel false in
+  let q := Spec.spec_microstep c sel s x in
+  corr c (fst r) (fst q) /\ snd q = emit (Spec.spec_cfg_tok c (fst q)) (snd r) /\ Spec.s_hv (fst q) = Spec.s_hv s.
+Proof. exact microstep_conforms_lemma. Qed.
+Print Assumptions microstep_conforms.
+
+(* the same with the transitions the engine selects itself (any event, any execution state at selection) *)
+Theorem microstep_selected_conforms : forall late t0 l s ev x0 x,
+  let c := flatten late t0 in
+  wf_coreb c = true -> par_nonemptyb c = true -> targets_antichainb c = true -> done_okb c = true -> root_silentb c = true ->
+  legal_configb c (l_cfg l) = true -> corr c l s ->
+  let sel := fst (select_loop lg_fixed c (l_cfg l) ev (cfg_postfix c (l_cfg l)) None [] x0) in
+  let r := microstep lg_fixed ex_fixed c l (emit TMsB x) (sel_targets c sel) (sel_exitset c (l_cfg l) sel) sel false in
+  let q := Spec.spec_microstep c sel s x in
+  corr c (fst r) (fst q) /\ snd q = emit (Spec.spec_cfg_tok c (fst q)) (snd r) /\ Spec.s_hv (fst q) = Spec.s_hv s.
+Proof. exact microstep_selected_conforms_lemma. Qed.
+Print Assumptions microstep_selected_conforms.
+
+(* selection + microstep: Large.select_and_step against selectTransitions + microstep of Appendix D, under
+   the hypotheses of selection_conforms and of microstep_conforms *)
+Theorem step_conforms : forall late t0 l s ev x,
+  let c := flatten late t0 in
+  wf_coreb c = true -> fs_type (st c 0) = FCompound -> par_nonemptyb c = true -> root_unmentionedb c = true ->
+  targets_antichainb c = true -> done_okb c = true -> root_silentb c = true ->
+  legal_configb c (l_cfg l) = true -> ascb (l_cfg l) = true -> corr c l s ->
+  unrelated_enabledb c (l_cfg l) ev x = true -> conds_pureb c (l_cfg l) x = true -> descs_okb c (l_cfg l) ev = true ->
+  let r := select_and_step lg_fixed ex_fixed c l x ev in
+  let en := fst (Spec.select_transitions c (Spec.s_cfg s) (Spec.s_hv s) ev x) in
+  snd (Spec.select_transitions c (Spec.s_cfg s) (Spec.s_hv s) ev x) = x /\
+  match en with
+  | [] => l_cfg (fst (fst r)) = l_cfg l /\ snd (fst r) = x
+  | _ => let q := Spec.spec_microstep c en s x in
+         corr c (fst (fst r)) (fst q) /\ snd q = emit (Spec.spec_cfg_tok c (fst q)) (snd (fst r)) /\
+         Spec.s_hv (fst q) = Spec.s_hv s
+  end.
+Proof. exact step_conforms_lemma. Qed.
+Print Assumptions step_conforms.
+
+(* the layers.  (c) the entry set *)
+Theorem entry_set_conforms : forall late t0 cfg sel h hist,
+  let c := flatten late t0 in
+  wf_coreb c = true -> targets_antichainb c = true -> legal_configb c cfg = true ->
+  (forall ti, In ti sel -> In (ft_source (tr c ti)) cfg) -> pairwise_ok lg_fixed c sel ->
+  Spec.e_histcontent (Spec.compute_entry_set c h sel) = [] /\
+  forall x, In x (Spec.e_enter (Spec.compute_entry_set c h sel)) <->
+            In x (fst (entry_set lg_fixed c cfg (sel_exitset c cfg sel) hist (sel_targets c sel) sel)) /\
+            ~ (In x cfg /\ ~ In x (sel_exitset c cfg sel)).
+Proof. exact entry_set_conforms_lemma. Qed.
+Print Assumptions entry_set_conforms.
+
+(* (a) exiting: the same states in the same order with the same view of the configuration *)
+Theorem exit_phase_conforms : forall c X cfg' x,
+  (forall i, mentions_bs (fs_sid (st c 0)) (fs_onexit (st c i)) = false) -> ~ In 0 X ->
+  fold_left (exit_one ex_fixed c) X (0 :: cfg', x) =
+  (0 :: fst (fold_left (spec_exit_one c) X (cfg', x)), snd (fold_left (spec_exit_one c) X (cfg', x))).
+Proof. exact exit_fold_conforms. Qed.
+Print Assumptions exit_phase_conforms.
+
+(* (b) the content of the transitions, in the order of the selected list *)
+Theorem take_phase_conforms : forall c cfg' sel x,
+  (forall ti, mentions_b (fs_sid (st c 0)) (ft_body (tr c ti)) = false) ->
+  (forall ti, In ti sel -> ft_history (tr c ti) || ft_initial (tr c ti) = false) ->
+  (forall ti, In ti sel -> ft_has_body (tr c ti) = false -> ft_body (tr c ti) = []) ->
+  fold_left (take_one ex_fixed c (0 :: cfg')) sel x =
+  fold_left (fun x ti => Spec.exec_trans_content c cfg' ti x) sel x.
+Proof. exact take_fold_conforms. Qed.
+Print Assumptions take_phase_conforms.
+
+(* ---- outside the hypotheses: the models differ (witnesses by computation; MicroConformWitness.both runs both
+   microsteps for the transitions the engine selects) ---- *)
+(* a target that is a proper ancestor of another target: Appendix D enters two children of a compound state *)
+Theorem microstep_target_ancestor_refuted :
+  exists late t0 cfg ev,
+    let c := flatten late t0 in
+    let '(sel, r, q) := both c cfg [] [0] ev x_init in
+    wf_coreb c = true /\ par_nonemptyb c = true /\ targets_antichainb c = false /\ done_okb c = true /\ root_silentb c = true /\
+    legal_configb c cfg = true /\ l_cfg (fst r) <> 0 :: Spec.s_cfg (fst q) /\ legal_configb c (0 :: Spec.s_cfg (fst q)) = false.
+Proof. exact MicroConformWitness.microstep_target_ancestor_refuted. Qed.
+Print Assumptions microstep_target_ancestor_refuted.
+
+(* a <final> child of a <parallel>: the engine raises done.state for the <parallel> twice *)
+Theorem microstep_final_in_parallel_refuted :
+  exists late t0 cfg ev,
+    let c := flatten late t0 in
+    let '(sel, r, q) := both c cfg [] [0] ev x_init in
+    wf_coreb c = true /\ par_nonemptyb c = true /\ targets_antichainb c = true /\ done_okb c = false /\ root_silentb c = true /\
+    legal_configb c cfg = true /\ l_cfg (fst r) = 0 :: Spec.s_cfg (fst q) /\
+    length (x_iq (snd r)) = 2 /\ length (x_iq (snd q)) = 1.
+Proof. exact MicroConformWitness.microstep_final_in_parallel_refuted. Qed.
+Print Assumptions microstep_final_in_parallel_refuted.
+
+(* a <final> three levels below a <parallel> (nested-parallel-done): the engine raises done.state for it *)
+Theorem microstep_nested_parallel_done_refuted :
+  exists late t0 cfg ev,
+    let c := flatten late t0 in
+    let '(sel, r, q) := both c cfg [] [0] ev x_init in
+    wf_coreb c = true /\ par_nonemptyb c = true /\ targets_antichainb c = true /\ done_okb c = false /\ root_silentb c = true /\
+    legal_configb c cfg = true /\ l_cfg (fst r) = 0 :: Spec.s_cfg (fst q) /\
+    length (x_iq (snd r)) = 2 /\ length (x_iq (snd q)) = 1.
+Proof. exact MicroConformWitness.microstep_nested_parallel_done_refuted. Qed.
+Print Assumptions microstep_nested_parallel_done_refuted.
+
+(* In(<sid of the root>) in content: the engine model's configuration contains the <scxml> element *)
+Theorem microstep_root_in_refuted :
+  exists late t0 cfg ev,
+    let c := flatten late t0 in
+    let '(sel, r, q) := both c cfg [] [0] ev x_init in
+    wf_coreb c = true /\ par_nonemptyb c = true /\ targets_antichainb c = true /\ done_okb c = true /\ root_silentb c = false /\
+    legal_configb c cfg = true /\ l_cfg (fst r) = 0 :: Spec.s_cfg (fst q) /\
+    snd q <> emit (Spec.spec_cfg_tok c (fst q)) (snd r).
+Proof. exact MicroConformWitness.microstep_root_in_refuted. Qed.
+Print Assumptions microstep_root_in_refuted.
